@@ -162,6 +162,8 @@ def vresTag {α} : VRes α → String
   | .panic _ => "panic"
 
 structure ReqOut where
+  /-- error kind of Exec / Flush on the model side (diagnostic only; never compared) -/
+  xk : String := "-"
   x : String
   c : Bool
   f : String
@@ -184,19 +186,21 @@ def request (env : Env) (cfg : Cfg) (e : Eng) (input : Bytes) : ReqOut × Eng :=
     | .ok out =>
       let shown := hadErr && out.length > 0
       ({ x := "ok", c := cont, f := "ok", o := out, e := if shown then (if opq then 2 else 1) else 0 }, e2)
-    | r => ({ x := "ok", c := cont, f := vresTag r, o := [], e := 0 }, e2)
+    | r => ({ x := "ok", c := cont, f := vresTag r, o := [], e := 0,
+              xk := match r with | .err k _ => "flush:" ++ k | .panic p => "flushpanic:" ++ p | _ => "-" }, e2)
   | .err "invalid-input" _ => ({ x := "err", c := true, f := "-", o := [], e := 0 }, e1)
-  | r => ({ x := vresTag r, c := false, f := "-", o := [], e := 0 }, e1)
+  | r => ({ x := vresTag r, c := false, f := "-", o := [], e := 0,
+            xk := match r with | .err k _ => k | .panic p => "panic:" ++ p | _ => "-" }, e1)
 
 def reqOutStr (r : ReqOut) : String :=
-  s!"x={r.x} c={if r.c then 1 else 0} f={r.f} o={hexOut r.o} e={r.e}"
+  s!"x={r.x} c={if r.c then 1 else 0} f={r.f} o={hexOut r.o} e={r.e} xk={r.xk.replace " " "_"}"
 
 def engCaseRun (c : EngCase) : String :=
   let env := envOf c
   let cfg := c.cfg
   if c.mode = "long" then
     -- a long-lived engine is given its state and cache explicitly (WithState / WithMemory)
-    let e0 : Eng := { vm := newVmSt cfg (loadedState env cfg (St.new cfg.flagCount)) (freshCache cfg) {} }
+    let e0 : Eng := { vm := newVmSt cfg (St.new cfg.flagCount) (freshCache cfg) {}, explicitState := true }
     let (_, outs, _) := c.inputs.foldl (fun (acc : Eng × List String × Bool) input =>
       let (e, outs, stopped) := acc
       if stopped then (e, outs ++ ["stopped"], true) else
